@@ -121,8 +121,7 @@ pub fn run(args: &Args) {
         run_history(&mut out, "C06", "loans", &mut rng, Mix::Loans, cw20, fees, funds, Source::Gen(len));
         out.count("random_history");
     }
-    // (3) router loans with native coins attached to the FlashLoan message (monitors only; the model's ORouterLoan carries
-    //     no attached funds): the router keeps nothing - the vault gains exactly the quoted fees, the initiator gets the rest back
+    // (3) router loans with native coins attached to the FlashLoan message (model op ORouterLoanF + dedicated monitors): the router keeps nothing - the vault gains exactly the quoted fees, the initiator gets the rest back
     for i in 0..(args.n / 10).max(12) {
         let fees = gen_fees(&mut rng);
         let mut w = match deploy(false, fees, FUNDS) { Ok(w) => w, Err(_) => continue };
@@ -134,6 +133,11 @@ pub fn run(args: &Args) {
         // the payload passes the whole loan to the borrower contract, which pays the quoted amount back to the router out of
         // the loan plus the initiator's attached coins
         let script = vec![Act::Pay { to: I_ROUTER, amount: u(z) }];
+        // the same operation as a correspondence case (model op ORouterLoanF)
+        let mut ops = prelude();
+        ops.push(Op::RouterLoanF { u: 7, amount: u(z), pre: u(z), script: script.clone(), attached: u(attached) });
+        ops.push(Op::Withdraw { u: 6, amount: u(1_000) });
+        run_history(&mut out, "C06", "loans", &mut rng, Mix::Loans, false, fees, FUNDS, Source::Fixed(ops));
         let code = w.router_loan_with_funds(7, z, z, &script, attached);
         let a = w.dump();
         out.monitor_evals += 1;
